@@ -264,13 +264,41 @@ func Keys(r *ev.Run, tier string) (evals, nontrivial int64) {
 			}
 		}
 	}
+	// the textual form of heights (used inside store keys) parses back to the same height over the whole uint64 range
+	{
+		grid := []uint64{0, 1, 9, 10, 47, 1<<32 - 1, 1 << 32, 1<<63 - 1, 1 << 63, 1<<64 - 1}
+		bad := 0
+		for _, rv := range grid {
+			for _, hv := range grid {
+				ht := clienttypes.NewHeight(rv, hv)
+				evals++
+				back, err := clienttypes.ParseHeight(ht.String())
+				if err != nil || !back.EQ(ht) {
+					if bad == 0 {
+						r.Violation("C19:height-text-form-not-parsed-back", fmt.Sprintf("%s parses back as %s (err %v)", ht, back, err), nil)
+					}
+					bad++
+				}
+			}
+		}
+		if bad == 0 {
+			r.Outcome("height text form parses back over the uint64 grid")
+		}
+	}
 	// the keeper's own iterator over all clients
 	{
 		got := map[string]int{}
-		ck.IterateConsensusStates(hctx, func(chain string, cs clienttypes.ConsensusStateWithHeight) bool {
-			got[chain+"@"+cs.Height.String()]++
-			return false
-		})
+		func() {
+			defer func() {
+				if rec := recover(); rec != nil {
+					r.Violation("C19:consensus-height-not-read-back/keeper-iterator-panics", fmt.Sprint(rec), nil)
+				}
+			}()
+			ck.IterateConsensusStates(hctx, func(chain string, cs clienttypes.ConsensusStateWithHeight) bool {
+				got[chain+"@"+cs.Height.String()]++
+				return false
+			})
+		}()
 		evals++
 		missing := 0
 		for _, kd := range kinds {
